@@ -903,10 +903,10 @@ class OneToOne(dict):
                 hash(val)
                 keys_vals = list(dict_or_iterable.items())
         else:
-            for key, val in dict_or_iterable:
+            keys_vals = list(dict_or_iterable)
+            for key, val in keys_vals:
                 hash(key)
                 hash(val)
-                keys_vals = list(dict_or_iterable)
         for val in kw.values():
             hash(val)
         keys_vals.extend(kw.items())
